@@ -145,3 +145,52 @@ def gen_api(tier, seed, work):
             f.write(json.dumps(it) + '\n')
     return {'api_hist': path}, {'module': 'MC_Api', 'cfg': 'MC_Api_gen', 'states': res.get('states', 0),
                                 'distinct': res.get('distinct', 0), 'histories': len(uniq), 'wall_s': round(res['wall'], 2)}
+
+
+def _emit_all(module, cfg, key, fname, tier, seed, work, quick_cap=None):
+    res = tlc.run_tlc(os.path.join(tlc.SPEC, 'mc', module + '.tla'), os.path.join(tlc.SPEC, 'mc', cfg + '.cfg'),
+                      workers=1, xmx='6g', xss='64m')
+    if 'Model checking completed. No error has been found.' not in res['out']:
+        raise tlc.MachineryError('S2C generator %s/%s failed\n%s' % (module, cfg, res['out'][-3000:]))
+    items = parse_s2c(res['out'])
+    seen, uniq = set(), []
+    for it in items:
+        k = json.dumps(it, sort_keys=True)
+        if k not in seen:
+            seen.add(k)
+            uniq.append(it)
+    if tier == 'quick' and quick_cap and len(uniq) > quick_cap:
+        import random
+        random.Random(seed).shuffle(uniq)
+        uniq = uniq[:quick_cap]
+    path = os.path.join(work, fname)
+    with open(path, 'w') as f:
+        for it in uniq:
+            f.write(json.dumps(it) + '\n')
+    return {key: path}, {'module': module, 'cfg': cfg, 'states': res.get('states', 0), 'distinct': res.get('distinct', 0),
+                         'emitted': len(uniq), 'wall_s': round(res['wall'], 2)}
+
+
+def gen_values(tier, seed, work):
+    """every value of the small domain of MC_Values (bounded-exhaustive: all leaf kinds, all ordered pairs in arrays and
+    tables, nested containers)"""
+    return _emit_all('MC_Values', 'MC_Values_gen', 'small_values', 'small_values.ndjson', tier, seed, work, quick_cap=6000)
+
+
+def gen_frames(tier, seed, work):
+    """every frame of the small domain of MC_Frames (64 methods x all bit combinations x boundary arguments, headers,
+    bodies, heartbeat, protocol header)"""
+    return _emit_all('MC_Frames', 'MC_Frames_gen', 'small_frames', 'small_frames.ndjson', tier, seed, work)
+
+
+def combine(*gens):
+    def run(tier, seed, work):
+        files, stats = {}, {'role': 'S2C generators', 'parts': []}
+        for g in gens:
+            f, st = g(tier, seed, work)
+            files.update(f)
+            stats['parts'].append(st)
+            stats['states'] = stats.get('states', 0) + st.get('states', 0)
+            stats['distinct'] = stats.get('distinct', 0) + st.get('distinct', 0)
+        return files, stats
+    return run
